@@ -37,6 +37,27 @@ IGNORED_TAGS = [
 
 INLINE_TAGS = [ nsdict[item[0]]+":"+item[1] for item in inline_elements]
 
+# Elements whose visible text is the text of the blocks they hold: frames and
+# text boxes, drawing shapes with text, numbered paragraphs, indexes
+CONTAINER_TAGS = [
+    'draw:frame', 'draw:text-box',
+    'draw:rect', 'draw:ellipse', 'draw:circle', 'draw:polygon', 'draw:polyline',
+    'draw:path', 'draw:regular-polygon', 'draw:connector', 'draw:caption',
+    'draw:measure', 'draw:custom-shape',
+    'text:section', 'text:numbered-paragraph',
+    'text:table-of-content', 'text:illustration-index', 'text:table-index',
+    'text:object-index', 'text:user-index', 'text:alphabetical-index',
+    'text:bibliography', 'text:index-title', 'text:index-body',
+]
+
+# What says how a container is to be generated or drawn holds no text of the document
+TEMPLATE_TAGS = [
+    'text:table-of-content-source', 'text:illustration-index-source',
+    'text:table-index-source', 'text:object-index-source', 'text:user-index-source',
+    'text:alphabetical-index-source', 'text:bibliography-source',
+    'draw:enhanced-geometry',
+]
+
 
 class TextProps:
     """ Holds properties for a text style. """
@@ -165,7 +186,7 @@ class ODF2MoinMoin(object):
          'text:a': self.text_a,
          'text:note': self.text_note,
         }
-        for tag in IGNORED_TAGS:
+        for tag in IGNORED_TAGS + TEMPLATE_TAGS:
             self.elements[tag] = self.do_nothing
 
         for tag in INLINE_TAGS:
@@ -473,13 +494,13 @@ class ODF2MoinMoin(object):
         buffer = []
 
         paragraphs = [el for el in self._elements(text)
-                      if el.tagName in ["draw:page", "text:p", "text:h","text:section",
-                                        "text:list", "table:table"]]
+                      if el.tagName in ["draw:page", "text:p", "text:h",
+                                        "text:list", "table:table"] + CONTAINER_TAGS]
 
         for paragraph in paragraphs:
             if paragraph.tagName == "text:list":
                 text = self.listToString(paragraph)
-            elif paragraph.tagName == "text:section":
+            elif paragraph.tagName in CONTAINER_TAGS:
                 text = self.textToString(paragraph)
             elif paragraph.tagName == "table:table":
                 text = self.tableToString(paragraph)
@@ -511,7 +532,7 @@ class ODF2MoinMoin(object):
             elif node.nodeType == xml.dom.Node.ELEMENT_NODE:
                 tag = node.tagName
 
-                if tag in ("draw:text-box", "draw:frame"):
+                if tag in CONTAINER_TAGS:
                     buffer.append(self.textToString(node))
 
                 elif tag in ("text:p", "text:h"):
